@@ -115,6 +115,32 @@ def judge(run, what, db, dist, pre, post, want_model=True):
             run.violation("%s: sqlittle returns %d rows%s that are not what SQLite reports after recovery (%s)" % (what, len(rows), " and an error" if failed else "", d),
                           {"kind": "crash-state-read-as-data", "db": keep, "what": what, "impl": out[:3] + out[-2:], "sqlite_rows": len(srows), "sqlite_state": state})
             return
+    if failed and not rows and dist.get("with_other_reader", 0) < dist.get("other_reader_cap", 40):
+        # the verdict on a crashed writer's files must not depend on who else is around: the same pair read while ANOTHER
+        # process holds a SHARED lock (a reader that got in before the crash, a backup tool) is refused as well
+        import fcntl
+        from checks import lockutil
+        fd = os.open(db, os.O_RDWR)
+        try:
+            fcntl.lockf(fd, fcntl.LOCK_SH | fcntl.LOCK_NB, lockutil.SHARED_SIZE, lockutil.SHARED_FIRST, 0)
+            impl2, _ = read_both(db, False)
+        finally:
+            os.close(fd)
+        dist["with_other_reader"] = dist.get("with_other_reader", 0) + 1
+        out2 = impl2.get("sel") or []
+        rows2 = [l for l in out2 if l.startswith("row ")]
+        failed2 = (impl2.get("open") or ["?"])[0].startswith("open err") or any(l.startswith("end err") for l in out2)
+        if rows2 or not failed2:
+            d = hl.same_rows(out2, srows)
+            if d or failed2:
+                keep = os.path.join(core.VERIF, "replays", "C09-" + re.sub(r"\W+", "-", what) + ".db")
+                os.makedirs(os.path.dirname(keep), exist_ok=True)
+                shutil.copyfile(db, keep)
+                if os.path.exists(db + "-journal"):
+                    shutil.copyfile(db + "-journal", keep + "-journal")
+                run.violation("%s, while another process holds a SHARED lock on the file: sqlittle returns %d rows that are not what SQLite reports after recovery (%s); alone it refuses the file" % (what, len(rows2), d),
+                              {"kind": "crash-state-read-as-data", "db": keep, "what": what, "other_process": "fcntl read lock on the SHARED range", "impl": out2[:3] + out2[-2:], "sqlite_rows": len(srows), "sqlite_state": state})
+                return
     # the handle-state model (journal check + header) must give the same verdict
     if want_model and model:
         mo = model.get("sel") or []
